@@ -325,6 +325,10 @@ pub fn exercise_provider<P: FontTableProvider + SfntVersion>(
             }
         }
     }
+    // ---- kern / STAT / HVAR / MVAR / gvar / cvar through their own readers --------------------------
+    if full {
+        exercise_misc_tables(s, provider, rng, num_glyphs);
+    }
     // ---- embedded images: non-default table filters and the bitmap tables' own API ---------------
     if full {
         exercise_images(s, provider, rng, num_glyphs);
@@ -408,6 +412,126 @@ pub fn exercise_provider<P: FontTableProvider + SfntVersion>(
                         .and_then(|f| f.table_provider(0).map_err(|_| allsorts::error::ParseError::BadValue))
                         .and_then(|p| Font::new(p).map(|_| ()))
                 });
+            }
+        }
+    }
+}
+
+/// Tables that `Font` and `instance` only consult on some paths, driven through their public readers.
+pub fn exercise_misc_tables<P: FontTableProvider>(s: &mut Script<'_>, provider: &P, rng: &mut Rng, num_glyphs: u16) {
+    use allsorts::tables::kern::KernTable;
+    use allsorts::tables::variable_fonts::cvar::CvarTable;
+    use allsorts::tables::variable_fonts::gvar::{GvarTable, NumPoints};
+    use allsorts::tables::variable_fonts::hvar::HvarTable;
+    use allsorts::tables::variable_fonts::mvar::MvarTable;
+    use allsorts::tables::variable_fonts::stat::{ElidableName, StatTable};
+    use allsorts::tables::CvtTable;
+    let n = num_glyphs;
+    let gids: Vec<u16> = {
+        let mut v: Vec<u16> = (0..n.min(12)).collect();
+        v.extend_from_slice(&[n.wrapping_sub(1), n, 0xFFFF]);
+        for _ in 0..6 {
+            v.push(rng.below(n as usize + 2) as u16);
+        }
+        v
+    };
+    if let Some(d) = s.res("table_data(kern)", || provider.table_data(tag::KERN)).flatten() {
+        if let Some(kern) = s.res("KernTable::read", || ReadScope::new(&d).read::<KernTable<'_>>()) {
+            let subs: Vec<_> = s.call("kern.sub_tables", || kern.sub_tables().take(16).collect::<Vec<_>>()).unwrap_or_default();
+            for sub in subs.into_iter().flatten() {
+                s.call("kern.flags", || (sub.is_horizontal(), sub.is_minimum(), sub.is_cross_stream(), sub.is_override()));
+                for &l in &gids {
+                    for &r in gids.iter().take(8) {
+                        s.call("kern.lookup", || sub.data().lookup(l, r));
+                    }
+                }
+            }
+            s.call("kern.to_owned", || kern.to_owned());
+        }
+    }
+    if let Some(d) = s.res("table_data(STAT)", || provider.table_data(tag::STAT)).flatten() {
+        if let Some(stat) = s.res("StatTable::read", || ReadScope::new(&d).read::<StatTable<'_>>()) {
+            s.call("stat.design_axes", || stat.design_axes().filter(|a| a.is_ok()).count());
+            for i in [0usize, 1, 7, 0xFFFF, usize::MAX / 2] {
+                s.res("stat.design_axis", || stat.design_axis(i).map(|_| ()));
+            }
+            s.call("stat.axis_value_tables", || {
+                stat.axis_value_tables().take(64).map(|t| t.map(|t| (t.value_name_id(), t.is_elidable())).ok()).count()
+            });
+            for axis in [0u16, 1, 2, 0xFFFF] {
+                for v in [0i32, 100, 400, 700, -1, 0x7FFF] {
+                    for e in [ElidableName::Include, ElidableName::Exclude] {
+                        s.call("stat.name_for_axis_value", || stat.name_for_axis_value(axis, Fixed::from(v), e));
+                    }
+                }
+            }
+        }
+    }
+    // normalised tuples for the variation tables
+    let fvar_data = provider.table_data(tag::FVAR).ok().flatten();
+    let fvar = fvar_data.as_ref().and_then(|d| ReadScope::new(d).read::<FvarTable<'_>>().ok());
+    let mut tuples = Vec::new();
+    let mut axis_count = 0u16;
+    if let Some(fvar) = fvar.as_ref() {
+        axis_count = fvar.axis_count();
+        let k = axis_count as usize;
+        for vals in [vec![0i32; k], vec![10000; k], vec![-10000; k], (0..k).map(|_| rng.range(-1000, 1000) as i32).collect::<Vec<_>>()] {
+            let vals: Vec<Fixed> = vals.into_iter().map(Fixed::from).collect();
+            if let Some(t) = s.res("fvar.normalize(misc)", || fvar.normalize(vals.iter().copied(), None)) {
+                tuples.push(t);
+            }
+        }
+    }
+    if let Some(d) = s.res("table_data(HVAR)", || provider.table_data(tag::HVAR)).flatten() {
+        if let Some(hvar) = s.res("HvarTable::read", || ReadScope::new(&d).read::<HvarTable<'_>>()) {
+            for t in &tuples {
+                for &g in &gids {
+                    s.res("hvar.advance_delta", || hvar.advance_delta(t, g));
+                    s.res("hvar.left_side_bearing_delta", || hvar.left_side_bearing_delta(t, g));
+                    s.res("hvar.right_side_bearing_delta", || hvar.right_side_bearing_delta(t, g));
+                }
+            }
+        }
+    }
+    if let Some(d) = s.res("table_data(MVAR)", || provider.table_data(tag::MVAR)).flatten() {
+        if let Some(mvar) = s.res("MvarTable::read", || ReadScope::new(&d).read::<MvarTable<'_>>()) {
+            let recs: Vec<u32> = s.call("mvar.value_records", || mvar.value_records().take(64).map(|r| r.value_tag).collect::<Vec<_>>()).unwrap_or_default();
+            s.call("mvar.value_records_len", || mvar.value_records_len());
+            for t in &tuples {
+                for &tg in recs.iter().chain([0u32, 0xFFFF_FFFF, 0x68617363].iter()) {
+                    s.call("mvar.lookup", || mvar.lookup(tg, t));
+                }
+            }
+        }
+    }
+    if let Some(d) = s.res("table_data(gvar)", || provider.table_data(tag::GVAR)).flatten() {
+        if let Some(gvar) = s.res("GvarTable::read", || ReadScope::new(&d).read::<GvarTable<'_>>()) {
+            for i in [0u16, 1, 2, 0xFFFF] {
+                s.res("gvar.shared_tuple", || gvar.shared_tuple(i).map(|_| ()));
+            }
+            for &g in &gids {
+                for np in [0u16, 4, 5, 40, 0xFFFF] {
+                    let store = s.res("gvar.glyph_variation_data", || gvar.glyph_variation_data(g, NumPoints::new(np)));
+                    if let Some(Some(store)) = store {
+                        for k in 0..4u16 {
+                            s.res("gvar.variation_data", || store.variation_data(k).map(|v| v.iter().take(70_000).count()));
+                        }
+                    }
+                }
+            }
+        }
+    }
+    if let Some(d) = s.res("table_data(cvar)", || provider.table_data(tag::CVAR)).flatten() {
+        let cvt_data = s.res("table_data(cvt)", || provider.table_data(tag::CVT)).flatten();
+        let cvt = cvt_data.as_ref().and_then(|c| s.res("CvtTable::read", || ReadScope::new(c).read_dep::<CvtTable<'_>>(c.len() as u32)));
+        let num_cvts = cvt.as_ref().map(|c| c.values.len() as u32).unwrap_or(0);
+        for (ac, nc) in [(axis_count, num_cvts), (axis_count, 0), (axis_count.wrapping_add(1), num_cvts), (0, 0xFFFF_FFFF)] {
+            if let Some(cvar) = s.res("CvarTable::read", || ReadScope::new(&d).read_dep::<CvarTable<'_>>((ac, nc))) {
+                if let Some(cvt) = cvt.as_ref() {
+                    for t in &tuples {
+                        s.res("cvar.apply", || cvar.apply(t, cvt).map(|c| c.values.len()));
+                    }
+                }
             }
         }
     }
